@@ -33,8 +33,6 @@ type edit struct {
 	local func(p wm.Point) bool // nil = no locality claim; true = point must be unchanged
 }
 
-const namedErr = "cannot convert named port for an IP destination"
-
 // compareBoth checks the relation on the plain report and on the base connectivity reported with exposure analysis on.
 func compareBoth(before *wm.World, tb, tbX wm.ToolResult, e edit, x *fw.Rec) {
 	compare(before, tb, e, x, false)
@@ -47,7 +45,7 @@ func compare(before *wm.World, tb wm.ToolResult, e edit, x *fw.Rec, exposure boo
 	x.Count("relation_instances", 1)
 	if tb.Err != nil || ta.Err != nil {
 		for _, t := range []wm.ToolResult{tb, ta} {
-			if t.Err != nil && !strings.Contains(t.Err.Error(), namedErr) {
+			if t.Err != nil && !wm.IsNamedPortOnIPErr(t.Err) {
 				x.Fail("unexpected error: "+t.Err.Error(), "", e.name)
 			}
 		}
